@@ -8,7 +8,8 @@ import (
 	"kvassverif/internal/core"
 )
 
-func sanitizeInitial(s *Spec) {
+// SanitizeInitial drops initial placements of oversized targets.
+func SanitizeInitial(s *Spec) {
 	var keep []Placement
 	for _, p := range s.Initial {
 		for _, t := range s.Targets {
@@ -28,6 +29,8 @@ func judge(prop string, sc Scenario, out *Outcome, res *core.CaseResult, faultKi
 	res.AddStat("cycles_executed", int64(len(out.Trace)))
 	res.AddStat("moves_begun", int64(out.Moves))
 	res.AddStat("handovers_completed", int64(out.HandoversSeen))
+	res.AddStat("handovers_judged_with_own_scrape_counts", int64(out.IndependentHandovers))
+	res.AddStat("handover_rule_violations_seen_here_reported_by_C05", int64(len(out.HandoverViol2)+len(out.HandoverViol)))
 	res.AddStat("scale_events", int64(out.ScaleEvents))
 	res.AddStat("scale_up_obligations", int64(out.Obligations))
 	res.AddStat("faults_applied", int64(out.FaultsApplied))
@@ -91,7 +94,7 @@ func init() {
 		Run: func(w *core.WorkerCtx, idx int) *core.CaseResult {
 			r := core.NewRng(w.Seed, 0xC03, uint64(idx))
 			spec := GenSpec(r)
-			sanitizeInitial(&spec)
+			SanitizeInitial(&spec)
 			sc := GenWorkload(r, spec)
 			root := ScratchRoot(w.Scratch, idx)
 			defer os.RemoveAll(root)
